@@ -1353,7 +1353,7 @@ func gen(seed uint64, n int, outDir, corpusDir string) {
 	vf.WriteFile(filepath.Join(outDir, "Cases.v"), sb.String())
 	res.Cases = len(outs)
 	res.Distinct = len(distinct)
-	res.Rule = "a case is one history: either a trie history (update/delete/get/hash/iterate/node-iterate(+seek)/prove+verify/tampered verify/lying-db verify/commit/db-commit/reopen/DeriveSha/Keccak steps over a key pool with shared prefixes, prefix chains, the empty key, 32-byte keys, values of 0,1,31-33,54-57,60-200 bytes; plain or secure trie; cache limit 0-2) or a database schedule (several tries committed into one Database, Reference/Dereference/Cap/Commit, every live root re-read after each step); every observation of the implementation is compared with the model inside Coq; distinct by full text, non-trivial = more than 2 steps"
+	res.Rule = "a case is one history: either a trie history (update/delete/get/hash/iterate/node-iterate(+seek)/prove+verify/tampered verify/lying-db verify/commit/db-commit/reopen/DeriveSha/Keccak steps over a key pool with shared prefixes, prefix chains, the empty key, 32-byte keys, values of 0,1,31-33,54-57,60-200 bytes; plain or secure trie; cache limit 0-2; histories with copies: a second handle made by struct copy / SecureTrie.Copy before anything was hashed, later steps addressed to either handle, every handle checked against its own reference map after every step) or a database schedule (several tries committed into one Database, Reference/Dereference/Cap/Commit, every live root re-read after each step); every observation of the implementation is compared with the model inside Coq; distinct by full text, non-trivial = more than 2 steps"
 	res.Write(filepath.Join(outDir, "result.json"))
 }
 
